@@ -1026,6 +1026,10 @@ def main():
         json.dump({"undecided": str(e)}, open(os.path.join(out, "meta.json"), "w"))
         sys.exit(2)
     g.raw("\n} // verus!\n")
+    prov = os.path.join(a.verif, "contracts", "provided.rs")
+    if os.path.exists(prov):
+        g.raw("\n//@section provided\n")
+        g.raw(open(prov).read())
     lem = os.path.join(a.verif, "contracts", "lemmas.rs")
     if os.path.exists(lem):
         g.raw("\n//@section lemmas\n")
